@@ -82,7 +82,7 @@ fn acct_history(rng: &mut Rng, h: usize) {
             ops.push(format!("{{\"op\":\"write\",\"f\":{f},\"len\":{len},\"io_ok\":{io_ok},\"inject\":{fail}}}"));
             outs.push(format!("{{\"res\":{code},\"used\":{used},\"fsize\":{fsize}}}"));
             if code == 0 && len > 0 && used > cur_limit { ok = false; why = format!("write admitted beyond the limit: used {used} > limit {cur_limit}"); }
-            if fail && code == 0 { ok = false; why = "injected failure did not fail (harness)".into(); }
+            if ok && fail && code == 0 { ok = false; why = format!("a write of {len} bytes that could not be completed (file size limit) was reported as Ok; used_disk_space {used}, file accounted {fsize}"); }
         } else if r < 88 && !live.is_empty() {
             let f = *rng.pick(&live);
             let lf = files[f].take().unwrap();
